@@ -87,6 +87,51 @@ func checkBezier(r *ev.Run, b model2d.BezierCurve, monotoneX bool) {
 			}
 		}
 	}
+	// the generic helpers over the same curve: transposed view, evenly spaced polyline, cached lookup
+	gt := model2d.CurveTranspose(b)
+	for _, n := range []int{1, 3, 8} {
+		m := model2d.CurveMesh(b, n)
+		if m.NumSegments() > n {
+			viol("CurveMesh", 0, fmt.Sprintf("CurveMesh(%d) has %d segments", n, m.NumSegments()))
+			return
+		}
+		for i := 0; i < n; i++ {
+			p0, p1 := deCasteljau(b, float64(i)/float64(n)), deCasteljau(b, float64(i+1)/float64(n))
+			if p0.Dist(p1) <= tol {
+				continue // a segment of no length may coincide with another
+			}
+			found := false
+			m.Iterate(func(sg *model2d.Segment) {
+				if sg[0].Dist(p0) <= tol && sg[1].Dist(p1) <= tol {
+					found = true
+				}
+			})
+			if !found {
+				viol("CurveMesh", float64(i)/float64(n), fmt.Sprintf("CurveMesh(%d) has no segment from %v to %v", n, p0, p1))
+				return
+			}
+		}
+	}
+	for k := 0; k <= 8; k++ {
+		t := float64(k) / 8
+		want := deCasteljau(b, t)
+		if tv := gt.Eval(t); !(math.Abs(tv.X-want.Y) <= tol) || !(math.Abs(tv.Y-want.X) <= tol) {
+			viol("CurveTranspose", t, "CurveTranspose(c).Eval is not the swapped point")
+			return
+		}
+	}
+	if monotoneX {
+		cached := b.CachedEvalX(0)
+		for rep := 0; rep < 2; rep++ {
+			for k := 1; k < 8; k++ {
+				p := deCasteljau(b, float64(k)/8)
+				if y, y0 := cached(p.X), b.EvalX(p.X); y != y0 {
+					viol("CachedEvalX", float64(k)/8, fmt.Sprintf("cached lookup (call %d) gives %g, EvalX gives %g", rep+1, y, y0))
+					return
+				}
+			}
+		}
+	}
 	if monotoneX {
 		for k := 1; k < 8; k++ {
 			t := float64(k) / 8
@@ -105,7 +150,59 @@ func checkBezier(r *ev.Run, b model2d.BezierCurve, monotoneX bool) {
 	r.NontrivialAdd(1)
 }
 
+// smoothBezierStage: SmoothBezier joins cubics so that each starts where the previous one ended, with its first
+// control point the reflection of the previous second control point in that end point (a C1 joint).
+func smoothBezierStage(r *ev.Run) {
+	pts := []model2d.Coord{{X: 0, Y: 0}, {X: 1, Y: 2}, {X: 3, Y: -1}, {X: 4, Y: 0.5}, {X: 5, Y: 3}, {X: 7, Y: 1}, {X: 8, Y: -2}, {X: 9.5, Y: 0}}
+	for extra := 0; extra <= 4; extra += 2 {
+		for rot := 0; rot < len(pts); rot++ {
+			var p []model2d.Coord
+			for i := 0; i < 4+extra; i++ {
+				p = append(p, pts[(rot+i)%len(pts)])
+			}
+			r.Eval(1)
+			jc := model2d.SmoothBezier(p[0], p[1], p[2], p[3], p[4:]...)
+			c := ccase{"SmoothBezier", nil, 0}
+			if len(jc) != 1+extra/2 {
+				r.Violation("SmoothBezier/pieces", fmt.Sprintf("%d points: %d pieces", len(p), len(jc)), c)
+				continue
+			}
+			prevCtrl, prevEnd := p[2], p[3]
+			for i, piece := range jc {
+				b, ok := piece.(model2d.BezierCurve)
+				if !ok || len(b) != 4 {
+					r.Violation("SmoothBezier/pieces", fmt.Sprintf("piece %d is not a cubic", i), c)
+					break
+				}
+				if i == 0 {
+					if b[0] != p[0] || b[1] != p[1] || b[2] != p[2] || b[3] != p[3] {
+						r.Violation("SmoothBezier/first", fmt.Sprintf("first piece %v is not the four given points", b), c)
+					}
+					continue
+				}
+				ctrl, end := p[4+2*(i-1)], p[5+2*(i-1)]
+				if b[0] != prevEnd || b[3] != end || b[2] != ctrl || !(b[1].Dist(prevEnd.Scale(2).Sub(prevCtrl)) <= 1e-12) {
+					r.Violation("SmoothBezier/joint", fmt.Sprintf("piece %d = %v: want start %v, reflected control %v, control %v, end %v", i, b, prevEnd, prevEnd.Scale(2).Sub(prevCtrl), ctrl, end), c)
+				}
+				prevCtrl, prevEnd = ctrl, end
+			}
+			// the joined curve visits the joints at t = i/pieces
+			for i := 0; i <= len(jc); i++ {
+				want := p[0]
+				if i > 0 {
+					want = p[3+2*(i-1)]
+				}
+				if got := jc.Eval(float64(i) / float64(len(jc))); !(got.Dist(want) <= 1e-9) {
+					r.Violation("SmoothBezier/eval", fmt.Sprintf("%d pieces: Eval(%d/%d) = %v, the joint is %v", len(jc), i, len(jc), got, want), c)
+				}
+			}
+			r.NontrivialAdd(1)
+		}
+	}
+}
+
 func curveStage(r *ev.Run, full bool) {
+	smoothBezierStage(r)
 	alpha := []model2d.Coord{{X: 0, Y: 0}, {X: 1, Y: 2}, {X: 3, Y: -1}}
 	maxDeg := 5
 	if full {
